@@ -47,13 +47,24 @@ def phases(tier: str) -> List[Dict[str, Any]]:
         return [
             {"name": "single", "runs": 192, "heavy": True, "timeout": 240, "wall": 100},
             {"name": "interleaved", "runs": 160, "heavy": True, "timeout": 240, "wall": 100},
-            {"name": "known", "runs": 8, "heavy": True, "timeout": 240, "wall": 60},
+            {"name": "known", "runs": 5, "explicit": True, "timeout": 240, "wall": 60},
         ]
     return [
         {"name": "single", "runs": 5000, "heavy": True, "timeout": 400, "wall": 1500},
         {"name": "interleaved", "runs": 4000, "heavy": True, "timeout": 400, "wall": 1500},
-        {"name": "known", "runs": 32, "heavy": True, "timeout": 240, "wall": 120},
+        {"name": "known", "runs": 5, "explicit": True, "timeout": 240, "wall": 120},
     ]
+
+
+def explicit_plans(tier: str, phase: str) -> List[Dict[str, Any]]:
+    """Deterministic probes of the recorded findings D4 (replace key leaks process-wide) and
+    D10 (nn.Softmax)."""
+    base = {"phase": "known", "timeout": 300, "shrink_budget": 0, "key": 1, "progs": []}
+    return [dict(base, ops=[{"op": "replace_leak", "order": "before", "helper": "my_act"}]),
+            dict(base, ops=[{"op": "replace_leak", "order": "after", "helper": "my_act"}]),
+            dict(base, ops=[{"op": "replace_leak", "order": "after", "helper": "my_act2"}]),
+            dict(base, ops=[{"op": "nn_softmax", "dim": -1}]),
+            dict(base, ops=[{"op": "nn_softmax", "dim": 1}])]
 
 
 AVOID = ["nn_softmax"]  # shapes of known findings excluded from the search phases, probed in phase "known"
